@@ -19,7 +19,7 @@ Definition opt_n_eqb (a c : option N) : bool :=
 Definition lreq_eqb (a c : bytes * option N) : bool := bytes_eqb (fst a) (fst c) && opt_n_eqb (snd a) (snd c).
 
 (* ---- C15: [raw] is the prefix value the caller gave to OcflRepo::s3_repo / init_s3_repo
-   ("" for None); the client works with [client_prefix raw] (s3.rs:777) *)
+   ("" for None); the client works with [client_prefix raw] (s3.rs:793) *)
 
 (** the ListObjectsV2 requests of one list_prefix call: (prefix parameter, continuation token) *)
 Definition listing_requests (psize : nat) (keys : list bytes) (cp path : bytes) (delim : bool) : list (bytes * option N) :=
@@ -90,11 +90,15 @@ Definition check_storage_list_all (keys : list bytes) (raw : bytes) (t : tree) :
     vplib.s3stub.norm_prefix) *)
 Definition stored_prefix_is (raw expected : bytes) : bool := bytes_eqb (client_prefix raw) expected.
 
-(** purge_object on the observed bucket: result class, the DELETE requests in order, the
-    bucket afterwards (keys with content tokens) *)
-Definition check_purge (raw root : bytes) (bk : bucket) (obs_class : N) (obs_deleted : list bytes)
+(** content tokens of the driver: the inventory files are handed over as "I" ++ <the id they name> *)
+Definition tok_inv_id (tok : bytes) : option bytes :=
+  match tok with c :: r => if Ascii.eqb c "I"%char then Some r else None | [] => None end.
+
+(** purge_object of id [oid] with looked-up root [mapped] on the observed bucket: result class,
+    the DELETE requests in order, the bucket afterwards (keys with content tokens) *)
+Definition check_purge (raw oid mapped : bytes) (bk : bucket) (obs_class : N) (obs_deleted : list bytes)
            (obs_bucket : bucket) : bool :=
-  let out := purge_object None (client_prefix raw) root (init_st bk) in
+  let out := purge_object tok_inv_id None (client_prefix raw) oid mapped (init_st bk) in
   (match fst out with Ok _ => 0 | Err => 1 | Panic => 2 end =? obs_class) &&
   list_eqb bytes_eqb (map (fun r => match r with RDelete k => k | _ => [] end) (st_log (snd out))) obs_deleted &&
   pairs_set_eqb (st_b (snd out)) obs_bucket.
